@@ -213,3 +213,34 @@ PROPS["C03"] = {
             "binary shift; distinct by (ecc%, layers, payload).",
     "assumptions": COMMON_ASSUMPTIONS,
 }
+
+PROPS["C12"] = {
+    "technique": "property testing over (content, error-correction parameter) with the independent readers as oracle: declared level read back from format information / row indicators / mode message, check-codeword counts validated against ISO tables and Reed-Solomon syndromes",
+    "level_text": "exploration: for generated contents and uniformly drawn EC parameters the declared strength is read back from the rendered symbol and compared with the request; QR blocks must be RS-valid under the ISO block layout of (version, requested level); PDF417 must carry exactly 2^(level+1) valid check codewords and name the level in both indicators; DataMatrix must be RS-valid with the ECC 200 count of its size; Aztec check words x word size must be at least pct% of a sound lower bound of the data bits",
+    "level_note": RT_NOTE + "; Aztec: the number of data bits is bounded from below by the position of the last decoded character (the encoder's own bit count cannot be smaller)",
+    "parts": [
+        {"name": "regression", "kind": "plain", "test": "TestReplayDir"},
+        {"name": "sweep", "kind": "plain", "test": "TestC12Sweep"},
+        {"name": "rapid", "kind": "rapid", "test": "TestC12Rapid", "checks": {"quick": 16000, "thorough": 800000}},
+    ],
+    "rule": "cases from the C01-C04 generators with the EC parameter drawn uniformly (QR L/M/Q/H, PDF417 0..8, Aztec ecc% from a fixed list or U(0..100) with "
+            "layers 0/-4..-1/1..32); sweep = all 160 QR layouts at capacity, 9 PDF417 levels x 6 sizes, 24 DataMatrix sizes, Aztec 8 percentages x payload "
+            "lengths 1..1500 (x1.25 steps) x 2 content kinds. Non-trivial = accepted by the encoder; distinct by (symbology, parameter, content).",
+    "assumptions": COMMON_ASSUMPTIONS,
+}
+
+PROPS["C13"] = {
+    "technique": "boundary-sweep + rapid property testing of symbol size against reference capacity tables (QR, DataMatrix), a metamorphic/differential relation for Aztec (every smaller explicit size must be refused, the chosen one must reproduce the image) and a padding predicate for PDF417",
+    "level_text": "exploration with complete boundary sweeps: QR version <= the minimal version computed from the frozen ISO tables for every (version, level, mode) at capacity and at capacity(v-1)+1, also via Auto; DataMatrix size == smallest table size holding the ASCII-encodation codeword count at every boundary; Aztec: after an automatic encode, all explicit requests of smaller dimension are refused and the explicit request for the chosen size yields the identical image; PDF417: trailing pad codewords < columns and 2..30 rows/columns",
+    "level_note": RT_NOTE + "; Aztec minimality is relative to the encoder's own acceptance rule for explicit sizes (that rule itself is checked by C03/C12); large payloads in the quick tier test the five most plausible smaller sizes",
+    "parts": [
+        {"name": "regression", "kind": "plain", "test": "TestReplayDir"},
+        {"name": "sweep", "kind": "plain", "test": "TestC13Sweep"},
+        {"name": "rapid", "kind": "rapid", "test": "TestC13Rapid", "checks": {"quick": 12000, "thorough": 600000}},
+    ],
+    "rule": "sweep: QR 40 versions x 4 levels x 3 modes x {capacity, previous capacity + 1} x {explicit mode, Auto}; DataMatrix 24 sizes x {capacity, capacity-1, previous "
+            "capacity+1}; PDF417 homogeneous contents of every 5th (thorough: every) length up to beyond capacity x levels; Aztec payload lengths 1..capacity "
+            "(step 3, thorough 1, growing with length) x 5 percentages x 3 content kinds. rapid: boundary-directed cases from the C01-C04 generators. "
+            "Non-trivial = accepted by the encoder; distinct by (symbology, parameters, content).",
+    "assumptions": COMMON_ASSUMPTIONS,
+}
